@@ -10,7 +10,8 @@ PROOF_FILES = ["Properties/C10.v"]
 RULE = ("trk.hist pool script: every call of the script runs on the real scte35.State with descriptors built through the "
         "public API; observed per call: ids of the closed list, error, ids of Open() after the call, panics. Quick: all "
         "histories of length 3 over a 15-descriptor alphabet x {Process, Close} + Open (29^3 = 24 389), all of length 4 over a "
-        "reduced alphabet (12^4 = 20 736), the replays of F10, ring / VSS scenarios and 800 random histories up to length 200 "
+        "reduced alphabet (12^4 = 20 736), the replays of F10, ring / VSS scenarios, histories with 30-60 distinct descriptors at ONE "
+        "signal time (N1, bounded memory) and 800 random histories up to length 200 "
         "over random pools (1..14 distinct signal times, Equal copies, descriptors without PTS, VSS ids); thorough: all of "
         "length 4 over the full alphabet (707 281) and of length 5 over the reduced one (248 832), 12 000 random. Every history "
         "is judged twice: by the Coq-extracted trace checker (Spec/Trackers.v) on the REAL observations and by equality with the "
@@ -94,7 +95,6 @@ def exhaustive(pool, popts, copts, n, kind):
 def random_pool(rng, npts):
     n = rng.randrange(4, 28)
     ptss = [rng.randrange(2 ** 33) for _ in range(npts)]
-    per = {}
     pool = []
     for _ in range(n):
         if pool and rng.random() < 0.15:
@@ -106,9 +106,6 @@ def random_pool(rng, npts):
             d = D(ty, rng.choice([1, 1, 2, 3]), rng.choice(ptss), haspts=0 if rng.random() < 0.06 else 1,
                   segnum=rng.choice([1, 2]), segexp=2, hassub=rng.randrange(2) if ty in (0x34, 0x36) else 0,
                   subnum=rng.choice([1, 2]), subexp=2, vss=rng.choice([None, 1, 1, 2]) if ty == 0x40 else None)
-        per[d["ptsv"]] = per.get(d["ptsv"], 0) + 1
-        if per[d["ptsv"]] > 11:      # the duplicate scan doubles an entry per new descriptor at one PTS: keep it small
-            continue
         pool.append(d)
     return pool
 
@@ -143,6 +140,20 @@ F10_HISTORIES = [
     ([D(0x40, 7, 100, vss=1), D(0x40, 7, 200, vss=2)], [(0, 0), (0, 1), (0, 1), (0, 1)]),
 ]
 
+# N1 (fixed in /repo 34afac6): many distinct descriptors at ONE signal time.  Before the repair the ring entry doubled
+# with every descriptor (2^(n-1) stored pointers): these histories ended in the goexec watchdog ([3] = hang / heap).
+def one_pts_history(n, rng=None):
+    tys = [0x17, 0x30, 0x34, 0x20, 0x10, 0x40]
+    pool = []
+    for i in range(n):
+        ty = 0x17 if rng is None else rng.choice(tys)
+        pool.append(D(ty, i + 1, 5000, vss=(i + 1) if ty == 0x40 else None))
+    script = [(0, i) for i in range(n)] + [(0, n // 2), (0, 0), (2,)]
+    return pool, script
+
+
+N1_LINE = line_of(*one_pts_history(40))
+
 # the known finding: the 10-entry ring forgets; 12 calls
 RING_POOL = [D(0x17, 1, 1000 + 10 * i) for i in range(11)]
 RING_SCRIPT = [(0, i) for i in range(11)] + [(0, 0)]
@@ -154,6 +165,10 @@ def gen(rng, tier):
     for pool, script in F10_HISTORIES:
         out.append(hist(pool, script, "f10-replay"))
     out.append(hist(RING_POOL, RING_SCRIPT, "ring-eviction"))
+    for n in (30, 40, 60):
+        out.append(hist(*one_pts_history(n), "one-pts-many", "C10_bounded_memory"))
+    for n in (33, 48, 57) if tier == "quick" else (31, 33, 37, 41, 48, 52, 57, 60):
+        out.append(hist(*one_pts_history(n, rng), "one-pts-many", "C10_bounded_memory"))
     # ring: closed, evicted, processed again -> reopened after having been reported closed
     pool = [D(0x10, 1, 50)] + [D(0x20, 2, 1000 + 10 * i) for i in range(10)] + [D(0x11, 1, 60)]
     out.append(hist(pool, [(0, 0), (0, 11)] + [(0, i) for i in range(1, 11)] + [(0, 0), (2,)], "ring-eviction"))
@@ -211,7 +226,7 @@ def spec_verdict(line, obs):
     r = p.stdout.readline().strip()
     try:
         v = vlib.parse_val(r)
-        v = v if isinstance(v, list) and len(v) in (0, 2) and v != [9] else None
+        v = v if isinstance(v, list) and len(v) in (0, 2) and v != [-9999] else None
     except Exception:
         v = None
     if len(_cache) > 200000:
@@ -226,8 +241,11 @@ def script_of(line):
 
 
 def oracle(case, real, model):
-    if model in ("[8]", "[9]") or real in ("[8]", "[9]"):
+    if model in ("[-8888]", "[-9999]") or real in ("[-8888]", "[-9999]"):
         return "an executor rejected the request line (generator defect, not a verdict): real %s model %s" % (real, model)
+    if real in ("[3]", "[4]"):
+        return ("the history did not return: goexec watchdog verdict %s (a call ran for seconds or the heap grew past the limit / the process "
+                "died); C10 'no call panics' / bounded memory (C10_bounded_memory)" % real)
     v = spec_verdict(case.line, real)
     if v is None:
         return "the real observation is not readable by the trace checker: %s" % real[:200]
@@ -248,19 +266,64 @@ def oracle(case, real, model):
     return ""
 
 
+REJ = (29, 31, 37)
+
+
+def evicted_at(pool, script, obs, k):
+    """Replays the 10-entry ring of signal times over calls 0..k-1 from the history and the OBSERVED errors (a call whose
+    error is not a rejection went through the duplicate scan and either found an entry for its signal time or wrote a new
+    one at the head).  True iff the descriptor of call k was stored by an earlier accepted call and the ring entry that
+    held it has been overwritten since, i.e. the duplicate scan at call k can no longer see it."""
+    slots = [None] * 10          # signal time per slot
+    head = 0
+    stored = {}                  # signal time -> set of descriptor ids stored under it (accepted calls only)
+    forgotten = set()
+    for j in range(k):
+        c = script[j]
+        if c[0] != 0:
+            continue
+        d = pool[c[1]]
+        if d[3] != 1 or j >= len(obs) or not isinstance(obs[j], list) or len(obs[j]) < 2 or obs[j][1] in REJ:
+            continue
+        p = d[4]
+        if p not in slots:
+            old = slots[head]
+            if old is not None:
+                forgotten |= stored.pop(old, set())
+            slots[head] = p
+            head = (head + 1) % 10
+        stored.setdefault(p, set()).add(c[1])
+        forgotten.discard(c[1])
+    c = script[k]
+    return c[0] == 0 and c[1] in forgotten
+
+
 def known_match(entry, case, real, model):
-    """the ring-eviction finding: clause 7 or 8 at a call before which more than 10 distinct signal times were processed"""
+    """the ring-eviction finding, narrowly: the trace checker's verdict is clause 7 or 8 at a call ProcessDescriptor(d) that
+    was accepted, d had been accepted before, and the ring entry that remembered d had really been overwritten by then
+    (ring contents recomputed from the history); and the offending id in the observation is d itself"""
     if entry.get("signature") != "ring-eviction":
         return case.line in entry.get("lines", [entry.get("line")])
     v = spec_verdict(case.line, real)
     if not v or v[1] not in (7, 8):
         return False
-    pool, script = script_of(case.line)
-    seen = set()
-    for c in script[:v[0] + 1]:
-        if c[0] == 0 and pool[c[1]][3] == 1:
-            seen.add(pool[c[1]][4])
-    return len(seen) > 10
+    try:
+        pool, script = script_of(case.line)
+        obs = vlib.parse_val(real)
+        k = v[0]
+        c = script[k]
+        if c[0] != 0 or obs[k][1] in REJ or not evicted_at(pool, script, obs, k):
+            return False
+        i = c[1]
+        vis = obs[k][2][1]
+        if v[1] == 8:        # the same descriptor twice: d is listed twice, or d is a breakaway (hidden copy) and still listed
+            return vis.count(i) >= 2 or (pool[i][1] == 0x13 and i in vis)
+        # clause 7: d was reported closed, or had left the open list, before this call and is open again
+        was_closed = any(isinstance(obs[j], list) and len(obs[j]) > 2 and i in obs[j][0] for j in range(k + 1))
+        was_open = any(isinstance(obs[j], list) and len(obs[j]) > 2 and obs[j][2][0] == 0 and i in obs[j][2][1] for j in range(k))
+        return (i in vis or pool[i][1] == 0x13) and (was_closed or was_open)
+    except Exception:
+        return False
 
 
 def case_of_line(line, kind):
